@@ -155,6 +155,12 @@ func WithProcessor(processor NodeProcessor) LoadOption {
 // File paths are mapped to kebab-case tag names using directory path and filename.
 func WithComponents() LoadOption {
 	return func(vue *Vue) {
+		// Without a file system (New() without WithFS, or WithFS given after this option)
+		// there is no components directory to walk
+		if vue.templateFS == nil {
+			return
+		}
+
 		// Walk the components directory recursively
 		err := fs.WalkDir(vue.templateFS, "components", func(path string, d fs.DirEntry, err error) error {
 			if err != nil {
